@@ -510,7 +510,8 @@ class Unit:
         out.raw('', ('unit', blk.line))
         end = out.line
         contracted = any(c['kind'] in ('requires', 'ensures') for c in clauses)
-        info['functions'].append({'name': qual, 'file': blk.file, 'out_lines': (start, end), 'contracted': contracted,
+        is_slice = any(d.kind == 'slice' or (d.kind == 'rw' and 'R15' in d.arg.split()) for d in blk.dirs)
+        info['functions'].append({'name': qual, 'file': blk.file, 'out_lines': (start, end), 'contracted': contracted, 'slice': is_slice, 'emitted_as': name,
                                   'n_requires': sum(1 for c in clauses if c['kind'] == 'requires'),
                                   'n_ensures': sum(1 for c in clauses if c['kind'] == 'ensures'),
                                   'n_loops': len(loops)})
